@@ -88,6 +88,14 @@ def do_scan(lm, values, seq, threshold, block_size, poke_width):
             break
     return {"hits": hits, "overflow": overflow}
 
+@guard
+def lib_scores(lm, values, seq, positions):
+    # the library's own full scoring of the same matrix and sequence, at the given positions
+    pssm = lm.ScoringMatrix(values)
+    striped = lm.stripe(seq)
+    scores = pssm.calculate(striped)
+    return [repr(scores[i]) for i in positions]
+
 import errno
 
 class SimFile:
